@@ -2,7 +2,7 @@
 #pragma once
 #include "core.h"
 
-enum Kind { K_NONE, K_FIX, K_I8, K_I16, K_I32, K_I64, K_U8, K_U16, K_U32, K_U64, K_LL, K_ULL, K_F32, K_F64, K_SHIFT, K_ANGLE, K_IDX361, K_IDX256, K_COUNT, K_I128 };
+enum Kind { K_NONE, K_FIX, K_I8, K_I16, K_I32, K_I64, K_U8, K_U16, K_U32, K_U64, K_LL, K_ULL, K_F32, K_F64, K_SHIFT, K_ANGLE, K_IDX361, K_IDX256, K_COUNT, K_I128, K_CNT63 };
 struct Domain { Kind a, b; };
 // false: not a library entry point (harness helper) or unknown name
 bool entry_domain(const std::string & name, Domain & d);
